@@ -27,6 +27,14 @@ type evt struct {
 	kind   string // "park:<gate>" | "done"
 }
 
+// FreeRuns > 0 turns every Explore into that many free-running executions (all threads start at
+// once, nothing parks): the race pass, for -race builds. Oracles still apply - whatever they report
+// was observed on a real execution.
+var FreeRuns int
+
+// FreeRunsDone counts executions of the race pass.
+var FreeRunsDone int
+
 // Controller serialises request threads.
 type Controller struct {
 	mu       sync.Mutex
@@ -118,6 +126,23 @@ func (c *Controller) Park(thread int, gate string) {
 // Run executes one complete schedule: replays prefix, then default choice (keep running the
 // current thread; else lowest id).
 func (c *Controller) Run() {
+	if FreeRuns > 0 {
+		// race pass: all threads start at once and nothing parks (active stays false)
+		for t := 0; t < c.n; t++ {
+			tt := t
+			c.Start(tt, func() { c.events <- evt{tt, "done"} })
+		}
+		for left := c.n; left > 0; {
+			select {
+			case <-c.events:
+				left--
+			case <-time.After(30 * time.Second):
+				c.Lost = "free-running pass: a thread did not finish within 30 s"
+				return
+			}
+		}
+		return
+	}
 	c.mu.Lock()
 	c.active = true
 	c.mu.Unlock()
@@ -230,6 +255,15 @@ func (c *Controller) Choices() []int {
 // execute one schedule with the given prefix and return the decisions taken; it returns false to
 // stop the exploration.
 func Explore(bound int, run func(prefix []int) ([]Decision, bool)) (executions int) {
+	if FreeRuns > 0 {
+		for i := 0; i < FreeRuns; i++ {
+			FreeRunsDone++
+			if _, cont := run(nil); !cont {
+				break
+			}
+		}
+		return FreeRuns
+	}
 	var rec func(prefix []int) bool
 	rec = func(prefix []int) bool {
 		decs, cont := run(prefix)
